@@ -10,6 +10,7 @@
 -/
 import Cobweb.Proofs.Tables
 import Cobweb.Proofs.Frames
+import Cobweb.Proofs.Registry
 
 namespace Cobweb.C06
 
@@ -130,6 +131,48 @@ theorem revoke_frame (s : St) (sys : Nat) (ts : List Trig) :
     (revokeAll s sys ts).storage = s.storage ∧ (revokeAll s sys ts).buffered = s.buffered ∧
     (revokeAll s sys ts).wq = s.wq ∧ (revokeAll s sys ts).stack = s.stack ∧ (revokeAll s sys ts).data = s.data := by
   simp
+
+
+/-! ### whole-execution theorems: tables move only by registry commands (`Proofs/Registry.lean`) -/
+
+/-- **Local, for every step of every execution.** The registrations under a type-wide key change only in a step that applies
+    a `regType` or a `revoke` command naming that key. Dispatching, running bodies, postponed recursion, clean-up,
+    despawning (even of the reactor), polling and garbage collection leave it alone. -/
+theorem typewide_moves_only_by_registry {p : Prog} {hh : Hist} {s s' : St} (ht : tick p hh s = some s') (tb : Tbl) (ty : Nat) :
+    s'.tbl tb ty = s.tbl tb ty ∨ ∃ c, nextCmd s = some c ∧ touchesTbl tb ty c := typewide_stable ht tb ty
+
+/-- The reactor list of an entity changes only by a registration on it, a revoke naming it, or its death. -/
+theorem entity_moves_only_by_registry {p : Prog} {hh : Hist} {s s' : St} (ht : tick p hh s = some s') (e : Nat) :
+    s'.entReactors e = s.entReactors e ∨ (s.alive e = true ∧ s'.alive e = false) ∨ ∃ c, nextCmd s = some c ∧ touchesEnt e c :=
+  entity_stable ht e
+
+/-- The despawn reactors of an entity change only by a registration on it, a revoke naming it, or the poll that consumes
+    its death. -/
+theorem despawn_moves_only_by_registry {p : Prog} {hh : Hist} {s s' : St} (ht : tick p hh s = some s') (e : Nat) :
+    s'.tblDsp e = s.tblDsp e ∨ (e ∈ s.dspChan ∧ s'.tblDsp e = [] ∧ ∃ rest, s.stack = .poll :: rest) ∨
+    ∃ c, nextCmd s = some c ∧ touchesDsp e c := despawn_stable ht e
+
+/-- **History level**: over any stretch of an execution in which no command names the key, the registrations under it
+    are exactly what they were: a revoke touches nothing but the keys its token names, for as long as one likes. -/
+theorem untouched_key_keeps_registrations {p : Prog} {hh : Hist} (tb : Tbl) (ty : Nat) {s s' : St}
+    (h : QuietRun p hh (fun x => ∃ c, nextCmd x = some c ∧ touchesTbl tb ty c) s s') : s'.tbl tb ty = s.tbl tb ty :=
+  typewide_stable_run tb ty h
+
+theorem untouched_entity_keeps_registrations {p : Prog} {hh : Hist} (e : Nat) {s s' : St}
+    (h : QuietRun p hh (fun x => (∃ c, nextCmd x = some c ∧ touchesEnt e c) ∨ x.alive e = false) s s') (ha : s'.alive e = true) :
+    s'.entReactors e = s.entReactors e := entity_stable_run e h ha
+
+theorem untouched_despawn_keeps_registrations {p : Prog} {hh : Hist} (e : Nat) {s s' : St}
+    (h : QuietRun p hh (fun x => (∃ c, nextCmd x = some c ∧ touchesDsp e c) ∨ (e ∈ x.dspChan ∧ ∃ rest, x.stack = .poll :: rest)) s s') :
+    s'.tblDsp e = s.tblDsp e := despawn_stable_run e h
+
+/-- A revoke applied at the head of a batch is effective for the very next command of the same batch: the step that
+    applies it leaves exactly `revokeAll` of the tables (complete, immediate — the per-key effect is `typewide_one_less`,
+    `entity_complete` above). -/
+theorem revoke_step_is_revokeAll (p : Prog) (hh : Hist) (s : St) (sys : Nat) (trigs : List Trig) (cs : List Cmd) (rest : List Frame)
+    (hs : s.stack = .batch (.revoke sys trigs :: cs) :: rest) :
+    tick p hh s = some (revokeAll ({ s with stack := .flush :: .batch cs :: rest } : St) sys trigs) := by
+  simp [tick, step, hs, runFrame, doBatch, applyCmd, St.push]
 
 /-- Non-vacuity: three reactors share a resource key; revoking the first keeps the other two, in order. -/
 example :
